@@ -412,11 +412,19 @@ func (d *Driver) readJournal(path string, agg *Agg, mu *sync.Mutex) (lastBegun i
 			for _, r := range out.Inconc {
 				agg.Inconc[r]++
 			}
-			if len(agg.Samples) < 4 {
-				for _, s := range out.Samples {
-					if len(agg.Samples) < 4 {
-						agg.Samples = append(agg.Samples, s)
+			for _, s := range out.Samples {
+				kind := "?"
+				if m, ok := s.(map[string]any); ok {
+					if k, ok := m["kind"].(string); ok {
+						kind = k
 					}
+				}
+				if agg.sampleKinds == nil {
+					agg.sampleKinds = map[string]int{}
+				}
+				if agg.sampleKinds[kind] < 2 && len(agg.Samples) < 10 {
+					agg.sampleKinds[kind]++
+					agg.Samples = append(agg.Samples, s)
 				}
 			}
 			mu.Unlock()
